@@ -508,14 +508,16 @@ Definition transform_step (ev : node -> ovalue -> nat -> M ovalue) (upd : node) 
       match obj_id im with
       | None =>            (* an object that is not part of the copy *)
           u <- ev upd (Some (strip_ids item)) tenv ;;
-          match u with
-          | None | Some (VObj _) => ret tt
-          | Some _ => fail (EEval ErrIllegalUpdate)
-          end ;;;
+          item1 <-
+            match u with
+            | None => ret item
+            | Some (VObj um) => ret (VObj (fold_left (fun d kv => obj_insert (fst kv) (snd kv) d) um im))
+            | Some _ => fail (EEval ErrIllegalUpdate)
+            end ;;
           match del with
           | None => ret tree
           | Some dn =>
-              d <- ev dn (Some (strip_ids item)) tenv ;;
+              d <- ev dn (Some (strip_ids item1)) tenv ;;
               if all_strings (arrayify d) then ret tree
               else fail (EEval ErrIllegalDelete)
           end
